@@ -313,16 +313,7 @@ Print Assumptions model_is_code_pendulum_parse.
    a Duration.  This discharges the side condition iso_native of the model_is_code theorems above. ---- *)
 Theorem parse_iso8601_returns_native : forall rs s i, iso8601 rs s = Ok i ->
   native_ok (R_i i) /\ match i with I_p p => p_native p | _ => True end.
-Proof.
-  intros rs s i E. split; [exact (iso8601_native rs s i E)|]. destruct i as [p| |]; try exact I.
-  destruct rs; cbn [iso8601] in E.
-  - unfold rs_iso8601 in E. destruct (existsb is_surrogate s); [discriminate|]. destruct (cur s =? ch_P).
-    + destruct (rs_raw s); discriminate.
-    + unfold lift_p in E. destruct (rs_parse_iso s) as [q|e] eqn:Eq; [|discriminate]. injection E as <-. exact (rs_parse_iso_native _ _ Eq).
-  - unfold py_iso8601 in E. cbv zeta in E. destruct (match_duration (fold_str s)) as [m|].
-    + destruct (negb (runs_ok m)); [discriminate|]. destruct (py_native (fold_str s)) as [[x ob]|e]; [discriminate|destruct e; discriminate].
-    + unfold lift_p in E. destruct (py_parse_iso (fold_str s)) as [q|e] eqn:Eq; [|discriminate]. injection E as <-. exact (py_parse_iso_native _ _ Eq).
-Qed.
+Proof. exact iso8601_native_strong. Qed.
 Print Assumptions parse_iso8601_returns_native.
 
 (* the ladder and the interval rung without side condition *)
